@@ -4,3 +4,19 @@ claim('C02', 'translation_validation',
       'SMT-decided equivalence of emitted 6502 code (symbolic execution, z3 QF_ABV), program families enumerated', 'E-TV', 'DESIGN.md 4/C02')
 NA['C08'] = 'macro expansion is performed by the regex crate on patterns built at run time; the matcher cannot be encoded with the tools present and without it no symbolic dimension is left (DESIGN.md section 5)'
 NA['C13'] = 'a property of emitted text over all programs with no value-level quantifier for a solver; depends on whole-generator reachability (DESIGN.md section 5); assembly failures met by E-TV are reported under the property being checked'
+claim('C01', 'translation_validation',
+      'For every program of the enumerated families G-expr/G-cond/G-ctl/G-call (about 10^4 quick, 4*10^4 thorough) the code the real compiler emits at -O1 and -O0 is compared with a reference meaning of the source (my own AST evaluated into z3 terms over the same flat memory): z3 decides, for EVERY initial memory/register state, whether final variables, X, Y and pointed-to bytes agree. Bracketing oracle (ISO and W8 readings) so that nothing is demanded beyond the property; every model is replayed concretely on the emitted code. The many genuine defects found are listed as known findings keyed by program + hash of the emitted code.',
+      'trusted: tv/refsem.py (reference evaluator), sym6502 semantics, mini-linker, z3; A-ptr/A-idx/A-dec/A-stk; program dimension enumerated, not solver-quantified; shift>=width, /0, out-of-range indexing excluded as undefined',
+      'SMT-decided equivalence between symbolic execution of emitted 6502 code and a reference C semantics (z3 QF_ABV); program families enumerated', 'E-TV', 'DESIGN.md 4/C01')
+claim('C11', 'translation_validation',
+      'Each family program is compiled plain, with --insert-code, -W all, and with layout noise inserted between any two tokens (block comments containing quotes, //, directives, URLs; // comments; blank lines; splices; tabs; CR-LF). Identical instruction streams are equal by construction; otherwise z3 decides equivalence over all initial states. A variant rejected or crashing while the plain source is accepted is a violation.',
+      'as C02; noise is placed only at token boundaries of my printer output; the pest WHITESPACE/COMMENT rules and the cpp scanner run concretely (they are not encoded)',
+      'SMT-decided equivalence of emitted code across listing options and comment/layout perturbations of the source', 'E-TV', 'DESIGN.md 4/C11')
+claim('C14', 'translation_validation',
+      'Every call-family program is compiled once per subset of its callees marked inline, at -O1 and -O0; each variant is proved equivalent to the all-out-of-line variant for every initial state by z3 (final variables, X, Y, pointed-to bytes, termination within the loop bound).',
+      'as C02; inline + bank attributes and recursion outside the claim',
+      'SMT-decided equivalence of emitted code with/without inline', 'E-TV', 'DESIGN.md 4/C14')
+claim('C15', 'translation_validation',
+      'Pairs (program, rewritten program) for every listed meaning-preserving rewrite (commute, op=, ++, if/!if, a<b / b>a, negated operator, for/while, switch/if-chain, register index vs constant, call vs in-place body) over the operand/condition families; z3 decides equivalence of the two emitted codes over all initial states (register-index rewrites restricted to states with the register equal to k; array indices in range).',
+      'as C02 plus A-idx for programs indexing arrays by X/Y',
+      'SMT-decided equivalence of emitted code for source-level rewrites', 'E-TV', 'DESIGN.md 4/C15')
